@@ -437,3 +437,116 @@ Proof.
   intros e b pre post _ Hpre Hb. unfold enc_raw. cbn [fst snd]. pose proof (zlen_nonneg _ b).
   split; [lia|]. exists b. split; [apply slice_mid|reflexivity].
 Qed.
+
+(* ------------------------------------------------------------------ handle data stream *)
+Definition wf_ostring (o : option (list Z)) : bool := match o with Some u => wf_string u | None => true end.
+Definition wf_handle (h : mhandle) : bool :=
+  u64b (h_handle h) && wf_ostring (h_type h) && wf_ostring (h_object h)
+  && u32b (h_attr h) && u32b (h_access h) && u32b (h_hcount h) && u32b (h_pcount h).
+
+Lemma zlen_ostring : forall e o, zlen (ostring e o) = ostring_len o.
+Proof. intros e [u|]; cbn [ostring ostring_len]; [apply zlen_enc_string|reflexivity]. Qed.
+
+Lemma read_ostring_enc : forall e o pre post, wf_ostring o = true -> 0 < zlen pre ->
+  read_ostring e (pre ++ ostring e o ++ post) (orva o (zlen pre)) = o.
+Proof.
+  intros e [u|] pre post H Hpre; cbn [ostring orva wf_ostring] in *; unfold read_ostring.
+  - replace (zlen pre =? 0) with false by (symmetry; apply Z.eqb_neq; lia). apply read_string_enc. exact H.
+  - reflexivity.
+Qed.
+
+Lemma handle_ok : forall v2 e, icodec_ok (handle_codec v2) e wf_handle.
+Proof.
+  intros v2 e. constructor.
+  - destruct v2; cbn [ic_layout handle_codec]; lsize_tac.
+  - intros h off H. destruct v2; reflexivity.
+  - intros [hd ty ob at_ ac hc pc] off H Hoff Hb. unfold wf_handle in H.
+    cbn [h_handle h_type h_object h_attr h_access h_hcount h_pcount ic_aux handle_codec] in *.
+    rewrite zlen_app, !zlen_ostring in Hb.
+    assert (Ht : 0 <= ostring_len ty) by (destruct ty; cbn [ostring_len]; [pose proof (zlen_nonneg _ l); lia|lia]).
+    assert (Ho : 0 <= ostring_len ob) by (destruct ob; cbn [ostring_len]; [pose proof (zlen_nonneg _ l); lia|lia]).
+    assert (Hr1 : 0 <= orva ty off <= off) by (destruct ty; cbn [orva]; lia).
+    assert (Hr2 : 0 <= orva ob (off + ostring_len ty) <= off + ostring_len ty) by (destruct ob; cbn [orva]; lia).
+    destruct v2; cbn [ic_layout ic_value handle_codec h_handle h_type h_object h_attr h_access h_hcount h_pcount app];
+      unfold L_MINIDUMP_HANDLE_DESCRIPTOR_2, L_MINIDUMP_HANDLE_DESCRIPTOR; hyps; wtsolve.
+  - intros [hd ty ob at_ ac hc pc] pre post H Hpre Hb. unfold wf_handle in H.
+    cbn [h_handle h_type h_object h_attr h_access h_hcount h_pcount ic_aux handle_codec] in *. bdestr.
+    assert (E1 : read_ostring e (pre ++ (ostring e ty ++ ostring e ob) ++ post) (orva ty (zlen pre)) = ty).
+    { rewrite <- app_assoc. apply read_ostring_enc; assumption. }
+    assert (E2 : read_ostring e (pre ++ (ostring e ty ++ ostring e ob) ++ post) (orva ob (zlen pre + ostring_len ty)) = ob).
+    { replace (pre ++ (ostring e ty ++ ostring e ob) ++ post) with ((pre ++ ostring e ty) ++ ostring e ob ++ post)
+        by (rewrite <- !app_assoc; reflexivity).
+      replace (zlen pre + ostring_len ty) with (zlen (pre ++ ostring e ty)) by (rewrite zlen_app, zlen_ostring; reflexivity).
+      apply read_ostring_enc; [assumption|]. rewrite zlen_app. pose proof (zlen_nonneg _ (ostring e ty)). lia. }
+    destruct v2; cbn [ic_read ic_value handle_codec vtuple app h_handle h_type h_object h_attr h_access h_hcount h_pcount];
+      rewrite E1, E2; reflexivity.
+Qed.
+
+Lemma handle_esize_vals : handle_esize false = 32 /\ handle_esize true = 40 /\ HANDLE_HDR = 16.
+Proof. repeat split. Qed.
+
+Lemma dec_handle_hdr_enc : forall e v2 n ents, 0 <= n < wbits 4 -> zlen ents = n * handle_esize v2 ->
+  dec_handle_hdr e (enc_exlist_hdr e HANDLE_HDR 4 (handle_esize v2) n ++ ents) = Some (handle_esize v2, (n, ents)).
+Proof.
+  intros e v2 n ents Hn Hlen. destruct handle_esize_vals as [E0 [E1 EH]].
+  unfold dec_handle_hdr, enc_exlist_hdr. rewrite EH.
+  assert (Hes : 0 <= handle_esize v2 < wbits 4) by (destruct v2; rewrite ?E0, ?E1, wbits4; lia).
+  assert (Hz : zlen (enc_uint e 4 16 ++ enc_uint e 4 (handle_esize v2) ++ enc_uint e 4 n) = 12) by (zl; lia).
+  rewrite Hz. change (Z.to_nat (16 - 12)) with 4%nat. cbn [repeat].
+  rewrite <- !app_assoc.
+  rewrite take_app by apply length_enc_uint. cbn [obnd fst snd].
+  rewrite take_app by apply length_enc_uint. cbn [obnd fst snd].
+  rewrite take_app by apply length_enc_uint. cbn [obnd fst snd].
+  rewrite !dec_enc_uint by (rewrite ?wbits4 in *; lia).
+  replace ((handle_esize v2 =? handle_esize false) || (handle_esize v2 =? handle_esize true)) with true
+    by (destruct v2; rewrite ?E0, ?E1; reflexivity).
+  cbn [negb]. zl. cbn [app]. rewrite Hlen.
+  match goal with |- context [?a <? ?b] => replace (a <? b) with false by (symmetry; apply Z.ltb_ge; lia) end.
+  change (Z.to_nat 16) with 16%nat.
+  match goal with |- context [skipn 16 ?x] =>
+    replace x with ((enc_uint e 4 16 ++ enc_uint e 4 (handle_esize v2) ++ enc_uint e 4 n ++ [0; 0; 0; 0]) ++ ents)
+      by (rewrite <- !app_assoc; reflexivity) end.
+  rewrite skipn_app.
+  assert (Hl : length (enc_uint e 4 16 ++ enc_uint e 4 (handle_esize v2) ++ enc_uint e 4 n ++ [0; 0; 0; 0]) = 16%nat)
+    by (rewrite !app_length, !length_enc_uint; reflexivity).
+  rewrite Hl, Nat.sub_diag. rewrite <- Hl at 1. rewrite skipn_all. reflexivity.
+Qed.
+
+Definition wf_handles (x : bool * list mhandle) : bool := forallb wf_handle (snd x).
+
+Theorem handles_roundtrip : forall e, sec_ok (enc_handles e) (dec_handles e) wf_handles.
+Proof.
+  intros e [v2 l] pre post Hwf Hpre Hb. unfold wf_handles in Hwf. unfold enc_handles, enc_exlist in *. cbn [fst snd] in *.
+  set (c := handle_codec v2) in *.
+  set (hdr := enc_exlist_hdr e HANDLE_HDR 4 (lsize (ic_layout c)) (zlen l)) in *.
+  assert (Hx : zlen hdr + zlen l * lsize (ic_layout c) <= U32M).
+  { rewrite !zlen_app in Hb. rewrite (enc_items_fst_len c e wf_handle (handle_ok v2 e)) in Hb by assumption.
+    pose proof (zlen_nonneg _ pre). pose proof (zlen_nonneg _ (snd (enc_items c e (zlen pre + (zlen hdr + zlen l * lsize (ic_layout c))) l))). lia. }
+  assert (Hn : 0 <= zlen l < wbits 4).
+  { eapply (count_bound c e wf_handle (handle_ok v2 e)) with (hdr := hdr); [apply Z.le_refl|exact Hx]. }
+  destruct (framed_roundtrip c e wf_handle (handle_ok v2 e) hdr
+              (fun bs => match dec_handle_hdr e bs with Some r => Some (snd r) | None => None end) l pre post) as [Hs [body [Hsl Hd]]];
+    try assumption.
+  { intros ents Hents. unfold hdr. change (lsize (ic_layout c)) with (handle_esize v2) in *. rewrite dec_handle_hdr_enc by assumption. reflexivity. }
+  split; [exact Hs|]. exists body. split; [exact Hsl|].
+  unfold dec_handles.
+  destruct (dec_handle_hdr e body) as [[ds [n ents]]|] eqn:E; [|discriminate].
+  cbn [obnd fst snd] in *.
+  (* the descriptor size read back is that of the codec used *)
+  assert (Hds : ds = handle_esize v2).
+  { (* body = hdr ++ entries, by the slice *)
+    assert (Hbody : exists ents0, body = hdr ++ ents0 /\ zlen ents0 = zlen l * handle_esize v2).
+    { exists (fst (enc_items c e (zlen pre + (zlen hdr + zlen l * lsize (ic_layout c))) l)). split.
+      - match type of Hsl with slice ?a ?o ?n = _ =>
+          replace a with (pre ++ (hdr ++ fst (enc_items c e (zlen pre + (zlen hdr + zlen l * lsize (ic_layout c))) l))
+                              ++ (snd (enc_items c e (zlen pre + (zlen hdr + zlen l * lsize (ic_layout c))) l) ++ post)) in Hsl
+            by (rewrite <- !app_assoc; reflexivity) end.
+        rewrite slice_mid' in Hsl; [inversion Hsl; reflexivity|reflexivity|].
+        rewrite zlen_app, (enc_items_fst_len c e wf_handle (handle_ok v2 e)) by assumption. reflexivity.
+      - apply (enc_items_fst_len c e wf_handle (handle_ok v2 e)). assumption. }
+    destruct Hbody as [ents0 [Hb1 Hb2]]. subst body. unfold hdr in E. change (lsize (ic_layout c)) with (handle_esize v2) in E.
+    rewrite dec_handle_hdr_enc in E by assumption. inversion E. reflexivity. }
+  subst ds. destruct handle_esize_vals as [E0 [E1 _]].
+  replace (handle_esize v2 =? handle_esize true) with v2 by (destruct v2; rewrite ?E0, ?E1; reflexivity).
+  fold c. rewrite Hd. reflexivity.
+Qed.
